@@ -181,28 +181,47 @@ func (c *FileCache[MetadataT]) Cache(key CacheKey, data io.Reader, expires time.
 	defer lock.Unlock()
 
 	fileName := filepath.Join(c.rootDir.Path, key.Hex)
-	file, err := os.Create(fileName)
+
+	// Write into a temporary file and rename it over the final name once it is complete.
+	// Readers that still hold the previous file open keep reading the previous body,
+	// and a failed write never touches the entry that is already cached under this key.
+	tmpFile, err := os.CreateTemp(c.rootDir.Path, key.Hex+".tmp-*")
 	if err != nil {
 		metrics.Global.Cache.CacheErrors.Increment()
 		slog.Error("Failed to create cache file", "key", key.Hex, "error", err)
 		return nil, fmt.Errorf("%w: failed to create cache file '%s'", ErrCacheFileCreate, fileName)
 	}
+	tmpName := tmpFile.Name()
 
-	fileSize, err := io.Copy(file, data)
+	fileSize, err := io.Copy(tmpFile, data)
 	if err != nil {
-		file.Close()
-		os.Remove(fileName)
+		tmpFile.Close()
+		os.Remove(tmpName)
 		metrics.Global.Cache.CacheErrors.Increment()
 		slog.Error("Failed to write cache file", "key", key.Hex, "error", err)
 		return nil, fmt.Errorf("%w: failed to write cache file '%s'", ErrCacheFileWrite, fileName)
 	}
 
 	if fileSize == 0 {
-		file.Close()
-		os.Remove(fileName)
+		tmpFile.Close()
+		os.Remove(tmpName)
 		metrics.Global.Cache.CacheErrors.Increment()
 		slog.Error("Cache file is empty", "key", key.Hex, "file_size", fileSize)
 		return nil, fmt.Errorf("%w: wrote 0 bytes to cache file '%s'", ErrCacheFileEmpty, fileName)
+	}
+
+	if err := tmpFile.Close(); err != nil {
+		os.Remove(tmpName)
+		metrics.Global.Cache.CacheErrors.Increment()
+		slog.Error("Failed to write cache file", "key", key.Hex, "error", err)
+		return nil, fmt.Errorf("%w: failed to write cache file '%s'", ErrCacheFileWrite, fileName)
+	}
+
+	if err := os.Rename(tmpName, fileName); err != nil {
+		os.Remove(tmpName)
+		metrics.Global.Cache.CacheErrors.Increment()
+		slog.Error("Failed to move cache file into place", "key", key.Hex, "error", err)
+		return nil, fmt.Errorf("%w: failed to create cache file '%s'", ErrCacheFileCreate, fileName)
 	}
 
 	meta := &EntryMetadata[MetadataT]{
@@ -228,12 +247,11 @@ func (c *FileCache[MetadataT]) Cache(key CacheKey, data io.Reader, expires time.
 
 	slog.Debug("Successfully cached data", "key", key.Hex, "size", fileSize)
 
-	slog.Debug("Seeking to the beginning of written cache file...", "key", key.Hex)
-	_, err = file.Seek(0, io.SeekStart)
+	file, err := os.Open(fileName)
 	if err != nil {
 		metrics.Global.Cache.CacheErrors.Increment()
-		slog.Error("Failed to seek to start of cache file", "key", key.Hex, "error", err)
-		return nil, fmt.Errorf("%w: failed to seek to start of cache file '%s'", ErrCacheFileRead, fileName)
+		slog.Error("Failed to open written cache file", "key", key.Hex, "error", err)
+		return nil, fmt.Errorf("%w: failed to open written cache file '%s'", ErrCacheFileRead, fileName)
 	}
 
 	return &Entry[MetadataT]{
